@@ -1048,7 +1048,8 @@ func ruleParamIndexTested(r *Run) {
 						continue
 					}
 					bo, isBo := ifi.Cond.(*ssa.BinOp)
-					if !isBo || bo.X != ssa.Value(ip) {
+					// the test is on the parameter as received, or on the index value itself (loop header test)
+					if !isBo || (bo.X != ssa.Value(ip) && bo.X != ssa.Value(phi)) {
 						continue
 					}
 					x := lenOf(bo.Y)
@@ -3708,7 +3709,23 @@ func ruleSearchBoundsOrdered(r *Run) {
 						continue
 					}
 					var succ = -1
+					// the difference form: d := hi - lo; if d <= 0 { return } (or lo - hi with the mirrored tests)
+					if z, isK := constInt(bo.Y); isK && z == 0 {
+						if sub, isSub := bo.X.(*ssa.BinOp); isSub && sub.Op == token.SUB {
+							switch {
+							case sub.X == sl.High && sub.Y == sl.Low && (bo.Op == token.GTR || bo.Op == token.GEQ):
+								succ = 0
+							case sub.X == sl.High && sub.Y == sl.Low && (bo.Op == token.LSS || bo.Op == token.LEQ):
+								succ = 1
+							case sub.X == sl.Low && sub.Y == sl.High && (bo.Op == token.LSS || bo.Op == token.LEQ):
+								succ = 0
+							case sub.X == sl.Low && sub.Y == sl.High && (bo.Op == token.GTR || bo.Op == token.GEQ):
+								succ = 1
+							}
+						}
+					}
 					switch {
+					case succ >= 0:
 					case bo.X == sl.Low && bo.Y == sl.High && (bo.Op == token.LSS || bo.Op == token.LEQ):
 						succ = 0
 					case bo.X == sl.Low && bo.Y == sl.High && (bo.Op == token.GTR || bo.Op == token.GEQ):
@@ -6211,6 +6228,52 @@ func rulePartitionClipsRuns(r *Run) {
 		args := c.Common().Args
 		length := args[len(args)-1]
 		ok := toBlockEnd(length)
+		// one call with the smaller of the two (n := dx; if remain < dx { n = remain }): every incoming value is the
+		// distance to the block's end, or enters from the edge on which it was found smaller than that distance
+		if phi, isPhi := stripConv(length).(*ssa.Phi); isPhi && !ok {
+			all := len(phi.Edges) > 0
+			for i, e := range phi.Edges {
+				if toBlockEnd(e) {
+					continue
+				}
+				pred := phi.Block().Preds[i]
+				smaller := false
+				for _, b := range f.Blocks {
+					ifi, isIf := b.Instrs[len(b.Instrs)-1].(*ssa.If)
+					if !isIf {
+						continue
+					}
+					bo, isBo := ifi.Cond.(*ssa.BinOp)
+					if !isBo {
+						continue
+					}
+					edge := -1
+					switch {
+					case (bo.Op == token.LSS || bo.Op == token.LEQ) && stripConv(bo.X) == stripConv(e) && toBlockEnd(bo.Y):
+						edge = 0
+					case (bo.Op == token.GTR || bo.Op == token.GEQ) && stripConv(bo.Y) == stripConv(e) && toBlockEnd(bo.X):
+						edge = 0
+					case bo.Op == token.GEQ && stripConv(bo.X) == stripConv(e) && toBlockEnd(bo.Y):
+						edge = 1
+					case bo.Op == token.LEQ && stripConv(bo.Y) == stripConv(e) && toBlockEnd(bo.X):
+						edge = 1
+					}
+					if edge < 0 {
+						continue
+					}
+					s := b.Succs[edge]
+					// the edge's target is the predecessor itself (a then-block) or, when the assignment block was
+					// merged away, the phi's own block entered directly from the test
+					if (s == pred && len(s.Preds) == 1) || (b == pred && s == phi.Block() && b.Succs[1-edge] != phi.Block()) {
+						smaller = true
+					}
+				}
+				if !smaller {
+					all = false
+				}
+			}
+			ok = all
+		}
 		if !ok {
 			for _, b := range f.Blocks {
 				ifi, isIf := b.Instrs[len(b.Instrs)-1].(*ssa.If)
@@ -6236,7 +6299,7 @@ func rulePartitionClipsRuns(r *Run) {
 		r.check(ok, fmt.Sprintf("Partition:filed-run#%d:clipped-to-its-block", n), "the length is the distance to the block's end or was found smaller than it",
 			"a run is filed under a block with a length that was not clipped to the block: a run that crosses the block's X boundary is handed whole to the worker of its first block, which indexes past the end of the block's voxels (in the split workers' goroutines: the process ends) or spills into the next row", w.pos(c.Pos()))
 	}
-	r.check(n >= 2, "Partition:filed-runs", fmt.Sprintf("%d", n), "fewer than expected: rule needs review", w.fpos(f))
+	r.check(n >= 1, "Partition:filed-runs", fmt.Sprintf("%d", n), "none found: rule needs review", w.fpos(f))
 }
 
 // ---------------------------------------------------------------------------------------------
@@ -8755,7 +8818,23 @@ func ruleCensusFollowsFlag(r *Run) {
 					ok2 = true
 				}
 			}
-			r.check(ok2, fmt.Sprintf("calcNumLabels:delta-update#%d:behind-the-add-test", n), "the update lies behind an edge of the add test",
+			// or the amount itself was chosen under the add test (step := 1; if !add { step = -1 }; delta[l] += step*n)
+			if !ok2 {
+				for dv := range dataDeps(mu.Value) {
+					phi, isPhi := dv.(*ssa.Phi)
+					if !isPhi {
+						continue
+					}
+					for _, t := range tests {
+						for _, pred := range phi.Block().Preds {
+							if pred == t.Block() || ((pred == t.Block().Succs[0] || pred == t.Block().Succs[1]) && len(pred.Preds) == 1) {
+								ok2 = true
+							}
+						}
+					}
+				}
+			}
+			r.check(ok2, fmt.Sprintf("calcNumLabels:delta-update#%d:behind-the-add-test", n), "the update lies behind an edge of the add test, or its amount was chosen under that test",
 				"a count in the delta map is changed without the add flag having been tested on the way: when the walk is used to subtract the previous block's voxels this branch adds them instead, and the per-label voxel counts drift upwards with every rewrite", w.pos(mu.Pos()))
 		}
 	}
